@@ -1,7 +1,7 @@
 //! Leg A for the state animator: replay spec-generated histories (REPLAY lines of MC_Animator)
 //! on a real StateAnimatorBuilder animator and compare every observation after every call.
 use crate::common::*;
-use crate::tl::{build_tl, scale, Tally};
+use crate::tl::{build_tl, config_tl, scale, Tally};
 use mina::prelude::*;
 use serde_json::{json, Value};
 use std::panic::{catch_unwind, AssertUnwindSafe};
@@ -22,6 +22,8 @@ pub fn build_anim(line: &Value, s: i64) -> Anim {
     for (i, comps) in line["tls"].as_array().unwrap().iter().enumerate() {
         let comps = comps.as_array().unwrap();
         if comps.is_empty() { continue; }
+        // `on` accepts a built timeline, an un-built builder or a merged timeline (TimelineOrBuilder): use all three
+        if comps.len() == 1 && (i + s.unsigned_abs() as usize) % 2 == 0 { b = b.on(st(i as i64 + 1), config_tl(&comps[0], pd, &pmap, s)); continue; }
         let tls: Vec<P4Timeline> = comps.iter().map(|c| build_tl(c, pd, &pmap, s)).collect();
         b = if tls.len() == 1 { b.on(st(i as i64 + 1), tls.into_iter().next().unwrap()) } else { b.on(st(i as i64 + 1), MergedTimeline::of(tls)) };
     }
